@@ -20,9 +20,21 @@ def isDigits (s : String) : Bool := !s.isEmpty && s.toList.all Char.isDigit
 def parseNat (s : String) : Option Nat :=
   if isDigits s && (s.length == 1 || s.toList.head? != some '0') then s.toNat? else none
 
+/-- A port: what iptables accepts for `--dport` / `--to-ports`. -/
+def parsePort (s : String) : Option Nat :=
+  match parseNat s with
+  | some n => if n ≤ 65535 then some n else none
+  | none => none
+
+/-- A packet mark: 32 bits. -/
+def parseMark (s : String) : Option Nat :=
+  match parseNat s with
+  | some n => if n ≤ 4294967295 then some n else none
+  | none => none
+
 def parseNats : List String → Option (List Nat)
   | [] => some []
-  | s :: t => match parseNat s, parseNats t with
+  | s :: t => match parsePort s, parseNats t with
     | some n, some l => some (n :: l)
     | _, _ => none
 
@@ -49,15 +61,22 @@ def parseHexGroup (s : String) : Option Nat :=
     | some a, some v => some (a * 16 + v)
     | _, _ => none) (some 0)
 
-def parseHexGroups (s : String) : Option (List Nat) :=
-  if s.isEmpty then some [] else
-  (s.splitOn ":").foldr (fun g acc => match parseHexGroup g, acc with
+/-- Colon-separated groups; the last one may be an embedded dotted IPv4 address (two groups). -/
+def parseGroupList : List String → Option (List Nat)
+  | [] => some []
+  | [g] =>
+    if g.contains '.' then (parseV4 g).map (fun a => [a / 65536, a % 65536])
+    else (parseHexGroup g).map (fun v => [v])
+  | g :: t => match parseHexGroup g, parseGroupList t with
     | some v, some l => some (v :: l)
-    | _, _ => none) (some [])
+    | _, _ => none
+
+def parseHexGroups (s : String) : Option (List Nat) :=
+  if s.isEmpty then some [] else parseGroupList (s.splitOn ":")
 
 def groupsToNat (l : List Nat) : Nat := l.foldl (fun acc g => acc * 65536 + g) 0
 
-/-- IPv6 text: eight hex groups, or fewer with exactly one `::`. -/
+/-- IPv6 text: eight hex groups, or fewer with exactly one `::`; an embedded IPv4 tail counts as two. -/
 def parseV6 (s : String) : Option Nat :=
   match s.splitOn "::" with
   | [whole] =>
@@ -65,6 +84,7 @@ def parseV6 (s : String) : Option Nat :=
     | some l => if l.length == 8 then some (groupsToNat l) else none
     | none => none
   | [a, b] =>
+    if a.contains '.' then none else
     match parseHexGroups a, parseHexGroups b with
     | some la, some lb =>
       if la.length + lb.length ≤ 7 then
@@ -159,8 +179,8 @@ def RawConfig.parse (r : RawConfig) : Outcome :=
   match (if r.outInclude == "*" then some [] else parsePrefixes (splitList r.outInclude)) with
   | none => .error "cidr"
   | some incl =>
-  match parseNat r.proxyPort, parseNat r.inboundCapturePort, parseNat r.inboundTunnelPort,
-        parseNat r.tproxyMark with
+  match parsePort r.proxyPort, parsePort r.inboundCapturePort, parsePort r.inboundTunnelPort,
+        parseMark r.tproxyMark with
   | some pp, some ic, some tp, some tmark =>
     match parseNats (splitList r.inboundExclude), parseNats (splitList r.outPortsInclude),
           parseNats (splitList r.outPortsExclude),
@@ -195,8 +215,40 @@ structure Environment where
   ownerGroupsExclude : Option String   -- ISTIO_OUTBOUND_OWNER_GROUPS_EXCLUDE (unset: "")
   loCidr             : Option String   -- ISTIO_OUTBOUND_IPV4_LOOPBACK_CIDR (unset: 127.0.0.1/32)
   envoyUID           : String          -- uid of ENVOY_USER, or DefaultProxyUID when the lookup fails
-  localIsV6          : Bool            -- getLocalIP: is the pod address IPv6
+  dualStack          : Bool            -- --dual-stack
+  localAddrs         : List String     -- net.InterfaceAddrs(), in order
   resolvConf         : List String     -- nameservers of /etc/resolv.conf
+
+/-- An interface address: family and value (`Unmap` applied: IPv4-mapped text is IPv4). -/
+def parseLocalAddr (s : String) : Option (Bool × Nat) :=
+  if s.contains ':' then
+    match parseV6 s with
+    | some a => if a / 2 ^ 32 == 0xffff then some (false, a % 2 ^ 32) else some (true, a)
+    | none => none
+  else (parseV4 s).map (fun a => (false, a))
+
+/-- `!IsLoopback() && !IsLinkLocalUnicast() && !IsLinkLocalMulticast()` of net/netip. -/
+def usableLocalAddr (v6 : Bool) (a : Nat) : Bool :=
+  if v6 then
+    a != 1 &&                                              -- ::1
+    a / 2 ^ 118 != 0x3fa &&                                -- fe80::/10
+    !(a / 2 ^ 120 == 0xff && a / 2 ^ 112 % 16 == 2)        -- ffx2::/16
+  else
+    a / 2 ^ 24 != 127 &&                                   -- 127.0.0.0/8
+    a / 2 ^ 16 != 0xa9fe &&                                -- 169.254.0.0/16
+    a / 2 ^ 8 != 0xe00000                                  -- 224.0.0.0/24
+
+/-- `getLocalIP(dualStack)`: is the pod's address IPv6 (`none`: no usable address, an error).
+    Without dual stack the first usable address decides; with dual stack the scan goes on until the
+    first usable IPv6 address (`seen`: a usable address was met before). -/
+def getLocalIsV6 (dual : Bool) : List (Bool × Nat) → Bool → Option Bool
+  | [], seen => if seen then some false else none
+  | (v6, a) :: rest, seen =>
+    if usableLocalAddr v6 a then
+      if !dual then some v6
+      else if v6 then some true
+      else getLocalIsV6 dual rest true
+    else getLocalIsV6 dual rest seen
 
 def orDefault (s d : String) : String := if s.isEmpty then d else s
 
@@ -205,11 +257,15 @@ def ipsSplitV4V6 (l : List String) : List String × List String :=
   (l.filterMap (fun s => if s.contains ':' then none else (parseV4 s).map v4Text),
    l.filterMap (fun s => if s.contains ':' then (parseV6 s).map v6Text else none))
 
-/-- `flags`: the values given on the command line ("" = flag absent, DefaultConfig value stays). -/
-def RawConfig.fill (flags : RawConfig) (e : Environment) : RawConfig :=
+/-- `flags`: the values given on the command line or through the flags' environment variables
+    ("" = absent, DefaultConfig value stays). `none`: FillConfigFromEnvironment returns an error. -/
+def RawConfig.fill (flags : RawConfig) (e : Environment) : Option RawConfig :=
+  match getLocalIsV6 e.dualStack (e.localAddrs.filterMap parseLocalAddr) false with
+  | none => none
+  | some isV6 =>
   let uid := orDefault flags.proxyUID e.envoyUID
   let useResolv := flags.redirectDNS && !flags.captureAllDNS
-  { flags with
+  some { flags with
     proxyPort := orDefault flags.proxyPort "15001",
     inboundCapturePort := orDefault flags.inboundCapturePort "15006",
     inboundTunnelPort := orDefault flags.inboundTunnelPort "15008",
@@ -219,7 +275,7 @@ def RawConfig.fill (flags : RawConfig) (e : Environment) : RawConfig :=
     ownerGroupsInclude := e.ownerGroupsInclude.getD "*",
     ownerGroupsExclude := e.ownerGroupsExclude.getD "",
     loCidr := e.loCidr.getD "127.0.0.1/32",
-    enableIPv6 := e.localIsV6,
+    enableIPv6 := isV6,
     dnsV4 := if useResolv then (ipsSplitV4V6 e.resolvConf).1 else [],
     dnsV6 := if useResolv then (ipsSplitV4V6 e.resolvConf).2 else [] }
 
